@@ -276,3 +276,22 @@ CHECKS["C05"]["jobs"] += [job("h_bwd-" + d, 500, 1, 8000, 2) for d in ["interval
 CHECKS["C05"]["rule"] += ("; the same deterministic budget (5*10^6 / 2*10^7 events) around the backward, forward+backward, top-down (incl. direct and mutual recursion, precise and "
                           "imprecise) and bottom-up analyses")
 CHECKS["C05"]["assumptions"] = PROG_ASSUME + CALL_ASSUME
+
+RGN_Q = ["interval", "bool_int", "sdbm", "constant", "sign_constant"]
+CHECKS["C15"] = {
+    "jobs": [job("h_rgn-" + d, 1200, 2, 20000, 4, fuzz_secs=300, fuzz_procs=2) for d in RGN_Q],
+    "rule": "region programs built by a generator on top of the C01 one: 1-3 regions (int / bool / reference / unknown), 2-5 reference variables with a home region, region_init "
+            "in the entry block, make_ref with distinct allocation sites (also in loops), aliases (gep with offset 0, select_ref incl. NULL arms), gep_ref with non-zero offsets "
+            "within and across regions, store_to_ref / load_from_ref of ints, bools and references, region_copy, region_cast through unknown regions, remove_ref, ref_to_int / "
+            "int_to_ref, assume_ref / assert_ref against NULL and between references, the add_tag intrinsic, numeric/boolean code in between; region_domain over interval, "
+            "flat-bool+interval, split_dbm, constant, sign+constant with ALL five region.* parameters (and zones parameters) decoded from the tape; forward analysis + 4-12 "
+            "concrete executions on a heap model (reference = null or (object, offset); cell = (region, object, offset); a read of a never-written cell, a use of a freed or "
+            "int_to_ref reference, an ordering of references into different objects leave the model); oracle: the scalar state after every statement (in particular after "
+            "every load_from_ref) is a member of the propagated invariant; a definite is_null_ref answer equals the concrete nullness; get_allocation_sites / get_tags answering "
+            "true contain the concrete allocation site / the tags of the cell; non-trivial = a judged load from a region holding >= 2 cells, or whose cell was last stored "
+            "through another reference variable, or after the same make_ref executed twice with its earlier object still referenced; distinct = hash of CFG+parameters",
+    "assumptions": PROG_ASSUME + ["cell identity is (region, object, offset), the granularity the domain's own reference counting commits to; every reference variable is used with its home region only",
+                                 "region_copy / region_cast into a region with live references, loads through int_to_ref results and gep from NULL are outside the model",
+                                 "tags are a lower-bound model (recorded only on already written cells)"],
+    "min_nontrivial_frac": 0.1,
+}
